@@ -9,6 +9,7 @@ PROPS = {
     ]),
     "C16": dict(pkg="rhpc", level="fault_enumeration", stages=[
         direct("enum", "TestC16Enum", quick=dict(shards=8, timeout=900), thorough=dict(shards=8, timeout=3600)),
+        direct("overlap", "TestC16Overlap"),
         rapid("rapid", "TestC16", dict(shards=16, checks=500), dict(shards=16, checks=10000, timeout=3000)),
     ]),
 }
